@@ -250,7 +250,13 @@ impl ThreadCtx {
                 if i2.m.lock().unwrap().free_run {
                     return;
                 }
-                if try_fn() {
+                // std's RwLock (futex implementation) prefers writers: a new reader waits while
+                // a writer is queued. Under the controller a writer "queued" for the map lock is
+                // parked here as Blocked("mmap_write") and never really queued, so the rule is
+                // applied by the controller: a reader of the map lock counts as blocked while
+                // another thread waits to write-lock it.
+                let writer_queued = |st: &State| kind == "mmap_read" && (0..st.status.len()).any(|t| t != me && st.status[t] == TStatus::Blocked("mmap_write"));
+                if try_fn() && !writer_queued(&i2.m.lock().unwrap()) {
                     return;
                 }
                 {
@@ -274,6 +280,7 @@ impl ThreadCtx {
                         Wake::Probe => {
                             let ok = try_fn();
                             let mut st = i2.m.lock().unwrap();
+                            let ok = ok && !writer_queued(&st);
                             st.probe_result = Some(ok);
                             st.probe = None;
                             i2.cv.notify_all();
